@@ -12,7 +12,7 @@ from .core import U, AnalysisError, parent, enclosing_stmt
 from .facts import FactMap
 
 
-def const_eval(P, module, node, func=None, _depth=0):
+def const_eval(P, module, node, func=None, _depth=0, env=None):
     """integer value of an expression built from literals, module constants and (when ``func`` is given) locals of
     that function that are assigned exactly once from such an expression; else None."""
     if node is None or _depth > 6:
@@ -20,6 +20,8 @@ def const_eval(P, module, node, func=None, _depth=0):
     if isinstance(node, ast.Constant) and isinstance(node.value, int) and not isinstance(node.value, bool):
         return node.value
     if isinstance(node, (ast.Name, ast.Attribute)):
+        if env and isinstance(node, ast.Name) and node.id in env:
+            return env[node.id]
         v = P.const_value(module, U(node))
         if isinstance(v, int) and not isinstance(v, bool):
             return v
@@ -29,10 +31,10 @@ def const_eval(P, module, node, func=None, _depth=0):
             augs = [n for n in ast.walk(func.node) if isinstance(n, ast.AugAssign) and U(n.target) == node.id]
             loops = [n for n in ast.walk(func.node) if isinstance(n, (ast.For, ast.comprehension)) and node.id in U(n.target)]
             if len(ds) == 1 and not augs and not loops:
-                return const_eval(P, module, ds[0].value, func, _depth + 1)
+                return const_eval(P, module, ds[0].value, func, _depth + 1, env)
         return None
     if isinstance(node, ast.BinOp):
-        a, b = const_eval(P, module, node.left, func, _depth + 1), const_eval(P, module, node.right, func, _depth + 1)
+        a, b = const_eval(P, module, node.left, func, _depth + 1, env), const_eval(P, module, node.right, func, _depth + 1, env)
         if a is None or b is None:
             return None
         if isinstance(node.op, ast.Add):
@@ -219,25 +221,54 @@ def extract(P, G):
         for n in ast.walk(f.node):
             if isinstance(n, ast.Subscript) and isinstance(n.ctx, ast.Load) and isinstance(n.slice, ast.Slice) and \
                     any(U(n.value).endswith(mk) for mk in HEADER_BUF_MARKERS):
+                envs = [None]
                 lo, hi = const_eval(P, f.module, n.slice.lower, f), const_eval(P, f.module, n.slice.upper, f)
                 if lo is None or hi is None:
-                    continue
-                p = parent(n)
-                codec, fmt = 'raw', None
-                whole = n
-                if isinstance(p, ast.Call) and n in p.args:
-                    nm = U(p.func).split('.')[-1]
-                    if nm in C:
-                        codec = nm
-                        fmt = C[nm].fmt_for(hi - lo)
-                        whole = p
-                    elif U(p.func) == 'struct.unpack' and p.args and isinstance(p.args[0], ast.Constant):
-                        codec, fmt, whole = 'struct.unpack', p.args[0].value, p
-                    elif nm in ('bytearray', 'bytes'):
+                    # bounds driven by a comprehension / loop variable over a literal tuple of constants:
+                    # one load per value
+                    q = parent(n)
+                    gen = None
+                    while q is not None and q is not f.node:
+                        if isinstance(q, (ast.GeneratorExp, ast.ListComp)) and len(q.generators) == 1:
+                            gen = (q.generators[0].target, q.generators[0].iter)
+                            break
+                        if isinstance(q, ast.For):
+                            gen = (q.target, q.iter)
+                            break
+                        q = parent(q)
+                    if gen is None or not isinstance(gen[1], (ast.Tuple, ast.List)):
+                        continue
+                    envs = []
+                    for item in gen[1].elts:
+                        if isinstance(gen[0], ast.Name) and isinstance(item, ast.Constant) and isinstance(item.value, int):
+                            envs.append({gen[0].id: item.value})
+                        elif isinstance(gen[0], ast.Tuple) and isinstance(item, ast.Tuple) and len(item.elts) == len(gen[0].elts) and \
+                                all(isinstance(x, ast.Constant) and isinstance(x.value, int) for x in item.elts):
+                            envs.append({U(t): x.value for t, x in zip(gen[0].elts, item.elts)})
+                    if not envs:
+                        continue
+                for env_ in envs:
+                    if env_ is not None:
+                        lo = const_eval(P, f.module, n.slice.lower, f, 0, env_)
+                        hi = const_eval(P, f.module, n.slice.upper, f, 0, env_)
+                        if lo is None or hi is None:
+                            continue
+                    p = parent(n)
+                    codec, fmt = 'raw', None
+                    whole = n
+                    if isinstance(p, ast.Call) and n in p.args:
+                        nm = U(p.func).split('.')[-1]
+                        if nm in C:
+                            codec = nm
+                            fmt = C[nm].fmt_for(hi - lo)
+                            whole = p
+                        elif U(p.func) == 'struct.unpack' and p.args and isinstance(p.args[0], ast.Constant):
+                            codec, fmt, whole = 'struct.unpack', p.args[0].value, p
+                        elif nm in ('bytearray', 'bytes'):
+                            codec = 'raw'
+                    elif isinstance(p, ast.Attribute) and p.attr == 'hex':
                         codec = 'raw'
-                elif isinstance(p, ast.Attribute) and p.attr == 'hex':
-                    codec = 'raw'
-                loads.append(Slot('load', f, n, lo, hi, codec, fmt, whole, U(n.value), enclosing_stmt(n)))
+                    loads.append(Slot('load', f, n, lo, hi, codec, fmt, whole, U(n.value), enclosing_stmt(n)))
     return stores, patches, loads
 
 
